@@ -46,6 +46,16 @@ pub enum Kind {
     Colon,
     /// `command . /work/libK.sh` - the shell opens the script for its own use
     Dot,
+    /// `case x in x) io ...;; esac REDIRS`
+    CaseC,
+    /// `while rc 0; do io ...; break; done REDIRS`
+    WhileC,
+    /// function whose definition carries the redirections: `g() { io ...; } REDIRS; g`
+    FuncDefRedir,
+    /// the command is the last stage of a pipeline: `rc 0 | io ... REDIRS` (runs in a child)
+    PipeLast,
+    /// inside a command substitution: `x=$(io ... REDIRS)` (runs in a child)
+    CmdSubst,
 }
 
 #[derive(Clone, Debug, Serialize, Deserialize, PartialEq)]
@@ -162,7 +172,8 @@ pub fn generate(rng: &mut Rng, tier: Tier) -> Case {
         }
         let last = i + 1 == n;
         let kind = match rng.below(if last { 24 } else { 21 }) {
-            0..=2 => Kind::Builtin,
+            0..=1 => Kind::Builtin,
+            2 => *rng.pick(&[Kind::CaseC, Kind::WhileC, Kind::FuncDefRedir, Kind::PipeLast, Kind::CmdSubst]),
             3..=4 => Kind::Dot,
             5..=6 => Kind::Func,
             7..=8 => Kind::Brace,
@@ -201,6 +212,15 @@ pub fn generate(rng: &mut Rng, tier: Tier) -> Case {
                 }
                 if r.fd == Some(10) {
                     r.fd = Some(4);
+                }
+            }
+        }
+        if kind == Kind::CmdSubst {
+            // (a here-document inside $( ) would need its body inside the parentheses)
+            for r in &mut redirs {
+                if r.op == Op::Here {
+                    r.op = Op::FileIn;
+                    r.operand = "e1".into();
                 }
             }
         }
@@ -274,6 +294,21 @@ pub fn render(c: &Case) -> String {
                     Kind::Eval => format!("eval 'io {o}' {rs}"),
                     Kind::Command => format!("command io {o} {rs}"),
                     Kind::Dot => format!("command . /work/lib{k}.sh {rs}"),
+                    Kind::CaseC => format!("case x in x) io {o};; esac {rs}"),
+                    Kind::WhileC => format!("while rc 0; do io {o}; break; done {rs}"),
+                    Kind::FuncDefRedir => {
+                        // the here-document bodies belong to the definition line
+                        let mut d = format!("g{k}() {{ io {o}; }} {rs}");
+                        d = d.trim_end().to_string();
+                        for h in heres.drain(..) {
+                            d.push('\n');
+                            d.push_str(&h);
+                            d.push_str("EOF");
+                        }
+                        format!("{d}\ng{k}")
+                    }
+                    Kind::PipeLast => format!("rc 0 | io {o} {rs}"),
+                    Kind::CmdSubst => format!("x{k}=$(io {o} {rs})"),
                     Kind::NotFound => format!("nosuch_cmd {rs}"),
                     Kind::Empty => rs.to_string(),
                     Kind::Exec => format!("exec {rs}"),
@@ -550,6 +585,21 @@ impl Model {
     fn run(&mut self, kind: Kind, ops: &[IoOp], redirs: &[Redir]) -> CmdExpect {
         let mut fds = self.fds.clone();
         let mut e = CmdExpect::default();
+        // constructs that run the command in a child whose stdin/stdout is a
+        // pipe, set up BEFORE the command's own redirections
+        match kind {
+            Kind::CmdSubst => {
+                self.anon.push(Vec::new());
+                let id = self.anon.len() - 1;
+                self.open(&mut fds, 1, Desc { kind: DK::Anon(id), readable: false, writable: true, append: false, offset: 0 });
+            }
+            Kind::PipeLast => {
+                self.anon.push(Vec::new());
+                let id = self.anon.len() - 1;
+                self.open(&mut fds, 0, Desc { kind: DK::Anon(id), readable: true, writable: false, append: false, offset: 0 });
+            }
+            _ => {}
+        }
         let mut ok = true;
         for r in redirs {
             self.taint_stderr(&fds);
